@@ -128,6 +128,18 @@ fn dec_hdr_p3() {
 fn dec_hdr_p7() {
     dec_hdr::<12>()
 }
+#[kani::proof]
+#[kani::unwind(18)]
+#[kani::stub(alloc::fmt::format, fmt_stub)]
+fn dec_hdr_p11() {
+    dec_hdr::<16>()
+}
+#[kani::proof]
+#[kani::unwind(34)]
+#[kani::stub(alloc::fmt::format, fmt_stub)]
+fn dec_hdr_p27() {
+    dec_hdr::<32>()
+}
 
 // ------------------------------------------------------------------------------------------------
 // D1 step: fewer than 5 bytes buffered => nothing decided, nothing consumed.
@@ -220,6 +232,48 @@ fn dec_body_3() {
 #[kani::stub(alloc::fmt::format, fmt_stub)]
 fn dec_body_5() {
     dec_body::<5>()
+}
+#[kani::proof]
+#[kani::unwind(11)]
+#[kani::stub(alloc::fmt::format, fmt_stub)]
+fn dec_body_8() {
+    dec_body::<8>()
+}
+#[kani::proof]
+#[kani::unwind(19)]
+#[kani::stub(alloc::fmt::format, fmt_stub)]
+fn dec_body_16() {
+    dec_body16()
+}
+fn dec_body16() {
+    // like dec_body, with len up to 16
+    const N: usize = 16;
+    let bytes: [u8; N] = kani::any();
+    let len: usize = kani::any();
+    kani::assume(len <= 16);
+    let mut inner = mk_inner(Body::empty(), any_direction(), kani::any());
+    inner.buf.put_slice(&bytes);
+    inner.state = State::ReadBody { compression: None, len };
+    let r = inner.decode_chunk(BufferSettings::default());
+    match &r {
+        Ok(Some(db)) => {
+            kani::cover!(true, "payload complete");
+            assert!(db.remaining() == len);
+            let c = db.chunk();
+            assert!(c.len() == len, "decode view must expose exactly the payload");
+            let mut i = 0;
+            while i < N {
+                if i < len {
+                    assert!(c[i] == bytes[i], "C01: payload bytes differ");
+                }
+                i += 1;
+            }
+        }
+        Ok(None) => assert!(false, "C01: complete payload not delivered"),
+        Err(_) => assert!(false, "no error is possible in the body phase without compression"),
+    }
+    core::mem::forget(r);
+    core::mem::forget(inner);
 }
 
 // ------------------------------------------------------------------------------------------------
